@@ -33,20 +33,23 @@ def unit_fn(unit):
         warnings.simplefilter('ignore')
         progs = zoo.programs(nt, st, 'thorough')
         progs = progs[:1] + progs[-1:] if unit['tier'] == 'quick' else progs
-        for (pname, prog), tsl, dt, adaptive, levy in itertools.product(
+        for (pname, prog), tsl, dt, adaptive, levy, y0_grad in itertools.product(
                 progs, ([0., 0.5], [0., 0.2, 0.45, 0.5]), (0.125, 0.2), (False, True),
-                (['davie', 'foster'] if method == 'log_ode' else [zoo.levy_for(method)])):
+                (['davie', 'foster'] if method == 'log_ode' else [zoo.levy_for(method)]), (True, False)):
             if adaptive and (dt != 0.125 or len(tsl) != 4):
                 continue
+            if not y0_grad and (len(tsl) != 2 or adaptive):
+                continue  # parameters only (y0 does not require grad): one ts pattern per dt is enough
             ts = torch.tensor(tsl, dtype=torch.float64)
-            y0 = zoo.y0_for(prog, B).requires_grad_(True)
+            y0 = zoo.y0_for(prog, B).requires_grad_(y0_grad)
             bm = seams.RecordingBM(zoo.make_bm(prog, B, levy, unit['entropy'], t1=0.5))
             params = [p for p in prog.parameters() if p.requires_grad]
             ys = solve(prog, y0, ts, bm, method, dt, opts, adaptive)
             sched = list(bm.log)
-            label = dict(cell=zoo.cell_name(cell), program=pname, ts=tsl, dt=dt, adaptive=adaptive, levy=levy)
+            label = dict(cell=zoo.cell_name(cell), program=pname, ts=tsl, dt=dt, adaptive=adaptive, levy=levy,
+                         y0_requires_grad=y0_grad)
             # autograd Jacobian: rows = output entries, columns = input coordinates
-            inputs = [y0] + params
+            inputs = ([y0] if y0_grad else []) + params
             ncol = sum(x.numel() for x in inputs)
             outs = [(k, b, i) for k in range(1, len(tsl)) for b in range(B) for i in range(prog.d)]
             J = torch.zeros(len(outs), ncol, dtype=torch.float64)
@@ -84,7 +87,7 @@ def unit_fn(unit):
             out.mx('max_jacobian_error', err / sc)
             if err > 2e-6 * sc:
                 r, c = divmod(int((J - F).abs().argmax()), ncol)
-                names = ['y0'] + [n for n, p in prog.named_parameters() if p.requires_grad]
+                names = (['y0'] if y0_grad else []) + [n for n, p in prog.named_parameters() if p.requires_grad]
                 cum = 0
                 which = None
                 for nme, x in zip(names, inputs):
@@ -96,8 +99,7 @@ def unit_fn(unit):
                               f"{label}: d ys{list(outs[r])}/d {which}: backprop {float(J[r, c])}, central differences "
                               f"{float(F[r, c])}", dict(engine='D-c08', entropy=unit['entropy'], **label))
             else:
-                out.keys.add((zoo.cell_name(cell), pname, tuple(tsl), dt, adaptive, levy))
-            unused_col = J[:, -0:]  # (parameters the SDE does not use get exactly zero from both sides)
+                out.keys.add((zoo.cell_name(cell), pname, tuple(tsl), dt, adaptive, levy, y0_grad))
             out.sample(label, limit=1)
     return out.pack()
 
